@@ -1357,6 +1357,12 @@ class Interp:
         for x in list(coll):
             if x not in xs:
                 self._released(o, x)
+        if self.pooled(o):
+            # members placed into the collection of a parent outside any session have a parent
+            # again (as in op_app); a later MOVE of such a member to a session parent is the
+            # registered two-parents defect, not an "orphaned outside the session" history
+            for x in xs:
+                self.rig.orphaned_outside.discard(self.rig.track(x))
         setattr(o, rel, set(xs) if isinstance(coll, set) else xs)
         self._pool_sync()
 
